@@ -8,6 +8,7 @@
 
 #include <xenium/detail/fixed_size_circular_array.hpp>
 #include <xenium/detail/growing_circular_array.hpp>
+#include <xenium/detail/port.hpp>
 #include <xenium/parameter.hpp>
 #include <xenium/policy.hpp>
 
@@ -141,7 +142,17 @@ bool chase_work_stealing_deque<T, Policies...>::try_steal(value_type& result) {
     return false;
   }
 
+  // The growing container grows in place, i.e., once it has grown the owner may reuse the slot that
+  // held item t under the old capacity for a new item. Therefore we must not use an item that was
+  // read while the container was growing: if the capacity is unchanged after the item has been read,
+  // the slot cannot have been reused yet (see the release-fence in growing_circular_array::grow).
+  const auto capacity = _items.capacity();
   auto* item = _items.get(t, std::memory_order_relaxed);
+  // (6) - this acquire-fence synchronizes-with the release-fence in growing_circular_array::grow
+  XENIUM_THREAD_FENCE(std::memory_order_acquire);
+  if (capacity != _items.capacity()) {
+    return false;
+  }
   // (5) - this seq-cst-CAS enforces a total order with the seq-cst-load (3)
   if (_top.compare_exchange_strong(t, t + 1, std::memory_order_seq_cst, std::memory_order_relaxed)) {
     result = item;
